@@ -182,6 +182,49 @@ def run_both(cases, dbg, driver_exe, harness_exe, wd, unst=False):
     return res
 
 
+def run_miri(cases, dbg, wd, nshards=16, timeout=1500):
+    """Runs the cases (built with genuinely uninitialised unoccupied slots, junk=5)
+    through the harness under Miri (cargo +nightly miri run). Returns
+    (ran, failures): failures = [(case-or-None, message)] for every shard in
+    which Miri reported undefined behaviour or the interpreter died."""
+    os.makedirs(wd, exist_ok=True)
+    tdir = os.path.join(CACHE, "target-miri")
+    env = {"RUSTFLAGS": "--cfg circular_buffer_verif", "MIRIFLAGS": "-Zmiri-disable-isolation",
+           "CARGO_TARGET_DIR": tdir, "CARGO_NET_OFFLINE": "true"}
+    hdir = HARNESS_DIR
+    if REPO != "/repo":
+        build_harness("dev")          # refreshes harness-alt
+        hdir = os.path.join(CACHE, "harness-alt")
+    shards = [cases[i::nshards] for i in range(nshards)]
+    shards = [sh_ for sh_ in shards if sh_]
+    by_id = {c.cid: c for c in cases}
+
+    def one(i, sh_):
+        inp, outp = os.path.join(wd, "miri%d.cases" % i), os.path.join(wd, "miri%d.out" % i)
+        open(inp, "w").write("".join(c.text(dbg) for c in sh_))
+        if os.path.exists(outp):
+            os.remove(outp)
+        rc, out = sh("cargo +nightly miri run --offline -- %s %s 2>&1" % (inp, outp), cwd=hdir, env=env, timeout=timeout)
+        done = open(outp).read() if os.path.exists(outp) else ""
+        return rc, out, done
+
+    # the first shard alone (it builds the interpreter's sysroot and the harness), the rest in parallel
+    results = [one(0, shards[0])]
+    with concurrent.futures.ThreadPoolExecutor(max_workers=JOBS) as ex:
+        futs = [ex.submit(one, i, sh_) for i, sh_ in enumerate(shards) if i > 0]
+        results += [f.result() for f in futs]
+    ran, failures = 0, []
+    for rc, out, done in results:
+        ran += len(re.findall(r"^end$", done, flags=re.M))
+        bad = re.findall(r"^fin .*bad=(?!-)(\S+)", done, flags=re.M)
+        if rc != 0 or "Undefined Behavior" in out or bad:
+            ids = re.findall(r"^case (\d+) ", done, flags=re.M)
+            last = by_id.get(int(ids[-1])) if ids else None
+            m = re.search(r"error: Undefined Behavior:[^\n]*(?:\n[^\n]*){0,12}", out)
+            failures.append((last, (m.group(0) if m else ("ledger: %s" % bad if bad else out[-1200:]))))
+    return ran, failures
+
+
 def kv(line):
     d = {}
     for t in line.split(" "):
